@@ -11,7 +11,10 @@ def main():
             print("  %s %s %s" % ("ok " if ok else "BROKEN", name, detail))
     G.regenerate(C(), list(G.GENERATORS))
     with common.Lock():
-        rc, out = common.sh(["lake", "build"], cwd=common.LEAN, timeout=7200)
+        import json, os
+        claimed = [c["property_id"] for c in json.load(open(os.path.join(common.VERIF, "MANIFEST.json")))["checks"]]
+        rc, out = common.sh(["lake", "build", "SigpyVerif"] + ["drv_" + c.lower() for c in claimed],
+                            cwd=common.LEAN, timeout=7200)
     print(out[-3000:])
     return 0 if rc == 0 else 2
 
